@@ -27,7 +27,7 @@ ASSUMPTIONS = [
     'a failed extend/update may have applied a prefix of its items (narrow relaxation); any other failed operation must leave the pre-state',
 ]
 TIERS = {
-    'quick': {'runs': 32, 'wall_cap': 80, 'chunk': 1, 'det_sample': 3, 'examples': 200, 'steps': 25, 'min_budget': 40, 'min_each': 20},
+    'quick': {'runs': 32, 'wall_cap': 80, 'chunk': 1, 'det_sample': 3, 'examples': 150, 'steps': 25, 'min_budget': 40, 'min_each': 20},
     'thorough': {'runs': 480, 'wall_cap': 1200, 'chunk': 1, 'det_sample': 6, 'examples': 500, 'steps': 40, 'min_budget': 120, 'min_each': 40},
 }
 
@@ -156,6 +156,16 @@ class World:
                 return self.r_at(path), self.m_at(path), None
             except (KeyError, IndexError, TypeError):
                 return 0, 0, None
+        if k == 'copy_of':
+            # a shallow copy (copy.copy) of an existing container node: a new node sharing its (nested) children
+            path = spec['path']
+            try:
+                rn, mn = self.r_at(path), self.m_at(path)
+            except (KeyError, IndexError, TypeError):
+                return 0, 0, None
+            if not isinstance(mn, (dict, list)):
+                return rn, mn, None
+            return copy.copy(rn), copy.copy(mn), None
         if k == 'bad':
             return (x for x in [1]), None, 'unconvertible_value'
         raise ValueError(k)
@@ -164,6 +174,11 @@ class World:
         """-> (model value, fault kind) without touching the real tree."""
         if spec['k'] == 'py':
             return dec(spec['v']), None
+        if spec['k'] == 'copy_of':
+            try:
+                return copy.copy(self.m_at(spec['path'])), None
+            except (KeyError, IndexError, TypeError):
+                return 0, None
         if spec['k'] == 'node_at':
             try:
                 return self.m_at(spec['path']), None
@@ -172,7 +187,7 @@ class World:
         return None, 'unconvertible_value'
 
     def _would_cycle(self, cpath, spec):
-        if spec['k'] != 'node_at':
+        if spec['k'] not in ('node_at', 'copy_of'):
             return False
         p = spec['path']
         try:
@@ -818,6 +833,8 @@ def _build_machine(max_steps):
             return {'k': 'bad'}
         if c in (1, 2):
             return {'k': 'node_at', 'sel': draw(sel)}
+        if c == 3:
+            return {'k': 'copy_of', 'sel': draw(sel)}
         return {'k': 'py', 'v': enc(draw(py_values))}
 
     class Machine(RuleBasedStateMachine):
@@ -846,7 +863,7 @@ def _build_machine(max_steps):
             return cs[s % len(cs)]
 
         def _resolve(self, v):
-            if v.get('k') == 'node_at' and 'path' not in v:
+            if v.get('k') in ('node_at', 'copy_of') and 'path' not in v:
                 # any existing node: pick a container path, then maybe one of its entries
                 cs = self.w.containers()
                 p = cs[v['sel'] % len(cs)]
@@ -856,7 +873,7 @@ def _build_machine(max_steps):
                     p = p + [ks[(v['sel'] // 13) % len(ks)]]
                 if not p:
                     return {'k': 'py', 'v': enc(0)}
-                return {'k': 'node_at', 'path': p}
+                return {'k': v['k'], 'path': p}
             return v
 
         def _do(self, op):
@@ -1061,6 +1078,15 @@ def shrink(sc):
                 c['ops'] = copy.deepcopy(ops)
                 del c['ops'][i]['items'][j]
                 yield c
+
+
+def det_view(res):
+    """What must reproduce exactly when a run is executed again. For a run that found a violation Hypothesis then
+    shrinks under its own wall-clock limits, so the amount of work (examples, operations) is not a function of the
+    seed; the verdict is."""
+    if res['violations']:
+        return {'rules': sorted({v['rule'] for v in res['violations']})}
+    return {'violations': [], 'stats': res['stats'], 'keys': res['keys'], 'harness': bool(res.get('harness'))}
 
 
 def evidence_extra(stats):
